@@ -3,6 +3,7 @@ package harness
 import (
 	"fmt"
 	"net"
+	"syscall"
 	"testing"
 
 	"verif/harness/cfggen"
@@ -30,6 +31,9 @@ type c14Conn struct {
 	AcceptFault bool       `json:"accept_fault,omitempty"`
 	Chunks      []c14Chunk `json:"chunks"`
 	EOF         bool       `json:"eof"` // the client closes at the end (else it just goes silent)
+	// Fault: "" | "write-fails" (the client is gone when the server replies: every Write on the connection
+	// fails from the start) | "reset" (the connection ends in a read error instead of EOF)
+	Fault string `json:"fault,omitempty"`
 }
 
 type c14Case struct {
@@ -88,7 +92,8 @@ func mutateBytes(t *rapid.T, b []byte, label string) []byte {
 }
 
 func genC14Conn(t *rapid.T, w cfggen.World) c14Conn {
-	cc := c14Conn{Scope: pickServingScope(t, w), EOF: rapid.Bool().Draw(t, "eof"), AcceptFault: rapid.IntRange(0, 5).Draw(t, "accept_fault") == 0}
+	cc := c14Conn{Scope: pickServingScope(t, w), EOF: rapid.Bool().Draw(t, "eof"), AcceptFault: rapid.IntRange(0, 5).Draw(t, "accept_fault") == 0,
+		Fault: rapid.SampledFrom([]string{"", "", "", "", "write-fails", "reset"}).Draw(t, "conn_fault")}
 	if rapid.IntRange(0, 5).Draw(t, "stranger") == 0 {
 		cc.Scope = "none"
 	}
@@ -280,6 +285,12 @@ func runC14(t failer, c c14Case) (handled int) {
 		if err != nil {
 			t.Fatalf("%v", err)
 		}
+		if cc.Fault != "" {
+			ev.Class("fault:" + cc.Fault)
+		}
+		if cc.Fault == "write-fails" {
+			conn.FailWrites(syscall.EPIPE)
+		}
 		for _, ch := range cc.Chunks {
 			if conn.Closed() {
 				break
@@ -296,7 +307,9 @@ func runC14(t failer, c c14Case) (handled int) {
 				t.Fatalf("HARNESS-BUG/INCONCLUSIVE: hostile connection %d wedged", i)
 			}
 		}
-		if cc.EOF {
+		if cc.Fault == "reset" {
+			conn.FeedError(syscall.ECONNRESET)
+		} else if cc.EOF {
 			conn.FeedEOF()
 		}
 		for _, call := range env.rec.Calls() {
